@@ -123,6 +123,12 @@ def check(case, ctx):
     spec = specgen.normalise(case["spec"], ctx.flags | {"no-allopts"}, ctx)
     G = build(spec)
     ref = Ref(spec)
+    if "no-coalesce-value-failure" in ctx.flags:
+        for st_ in case["steps"]:
+            if "o" in st_ and "coalesce-absorbed-value-failure" in ref.run(st_["o"]).labels:
+                ctx.exclude("no-coalesce-value-failure")
+                ctx.done(case, False, ["excluded-K6"])
+                return
     cacheable = {d["name"] for d in spec["defs"] if not d.get("nocache")}
     owner_of_effect = {}
     for d in spec["defs"]:
